@@ -39,8 +39,88 @@ def class_fields(p, c):
     return fields
 
 
-def eq_compared(c):
-    eq = c.methods.get("__eq__")
+NARROWED_ATTRS = {}  # (class qualname, field) -> attribute names of the field that the key reads
+
+
+def namespace_attrs_of_field(p, c, fld):
+    """attribute names with which the namespace stored in field `fld` of class c is constructed anywhere in the package
+    (`C(..., fld=types.SimpleNamespace(a=.., b=..))`, the namespace possibly bound to a local first); None if some
+    construction cannot be read"""
+    init = next((k.methods["__init__"] for k in p.mro(c) if hasattr(k, "methods") and "__init__" in k.methods), None)
+    params = init.params[1:] if init is not None else []
+    found = set()
+    n = 0
+    for f in p.funcs.values():
+        for call in walk_no_nested(f.node):
+            if not isinstance(call, ast.Call):
+                continue
+            r = resolve_callee(p, call, f.module)
+            if not (r and r[0] == "class" and r[1] is c):
+                continue
+            v = common.kwarg(call, fld)
+            if v is None and fld in params and params.index(fld) < len(call.args):
+                v = call.args[params.index(fld)]
+            if v is None:
+                continue
+            if isinstance(v, ast.Attribute) and isinstance(v.value, ast.Name) and v.attr == fld:
+                continue  # rebuilt from an existing instance (`concrete=self.concrete`)
+            if isinstance(v, ast.Name) and isinstance(f.node, (ast.FunctionDef, ast.AsyncFunctionDef)):
+                v = common.single_reaching_value(common.cfg_of(f), call, v.id) or v
+            if isinstance(v, ast.Call) and norm(v.func).endswith("SimpleNamespace") and not v.args and all(k.arg for k in v.keywords):
+                found |= {k.arg for k in v.keywords}
+                n += 1
+            else:
+                return None
+    return found if n else None
+
+
+def _method_reads(p, c, name, start=None, depth=0, seen=None):
+    """(whole, narrowed): fields of self that method `name` reads as it runs for instances of c - the definition found
+    through the MRO (from class `start` on), following `self.<m>()` and `super().<m>()` calls"""
+    seen = seen if seen is not None else set()
+    mro = [k for k in p.mro(c) if hasattr(k, "methods")]
+    if start is not None and start in mro:
+        mro = mro[mro.index(start) :]
+    owner = next((k for k in mro if name in k.methods), None)
+    if owner is None or depth > 4 or (owner.qualname, name) in seen:
+        return set(), set()
+    seen.add((owner.qualname, name))
+    m = owner.methods[name]
+    s_ = m.params[0] if m.params else "self"
+    whole, narrowed = set(), set()
+    for x in ast.walk(m.node):
+        if isinstance(x, ast.Attribute) and isinstance(x.value, ast.Name) and x.value.id == s_ and isinstance(x.ctx, ast.Load):
+            px = getattr(x, "_parent", None)
+            if isinstance(px, ast.Call) and px.func is x:
+                w2, n2 = _method_reads(p, c, x.attr, None, depth + 1, seen)  # self.m(...)
+                whole |= w2
+                narrowed |= n2
+            elif isinstance(px, ast.Attribute) and px.value is x:
+                narrowed.add(x.attr)
+                NARROWED_ATTRS.setdefault((c.qualname, x.attr), set()).add(px.attr)
+            elif isinstance(px, ast.Call) and isinstance(px.func, ast.Name) and px.func.id == "getattr" and px.args and px.args[0] is x and len(px.args) >= 2 and isinstance(px.args[1], ast.Constant):
+                narrowed.add(x.attr)  # getattr(self.F, "name", default) reads one attribute of the field
+                NARROWED_ATTRS.setdefault((c.qualname, x.attr), set()).add(px.args[1].value)
+            else:
+                whole.add(x.attr)
+        if isinstance(x, ast.Call) and isinstance(x.func, ast.Attribute) and isinstance(x.func.value, ast.Call) and isinstance(x.func.value.func, ast.Name) and x.func.value.func.id == "super":
+            nxt = mro[mro.index(owner) + 1] if mro.index(owner) + 1 < len(mro) else None
+            if nxt is not None:
+                w2, n2 = _method_reads(p, c, x.func.attr, nxt, depth + 1, seen)
+                whole |= w2
+                narrowed |= n2
+    return whole, narrowed - whole
+
+
+def eq_method(p, c):
+    for k in p.mro(c):
+        if hasattr(k, "methods") and "__eq__" in k.methods:
+            return k.methods["__eq__"]
+    return None
+
+
+def eq_compared(p, c):
+    eq = eq_method(p, c)
     if eq is None:
         return None
     s = eq.node.args.args[0].arg
@@ -50,12 +130,19 @@ def eq_compared(c):
         if isinstance(n, ast.Compare) and len(n.ops) == 1 and isinstance(n.ops[0], (ast.Eq, ast.NotEq, ast.Is, ast.IsNot)):
             l, r = n.left, n.comparators[0]
             for a, b in ((l, r), (r, l)):
+                # key-based equality: `self._key() == other._key()` compares what _key() reads
+                if isinstance(a, ast.Call) and isinstance(b, ast.Call) and isinstance(a.func, ast.Attribute) and isinstance(b.func, ast.Attribute) and isinstance(a.func.value, ast.Name) and isinstance(b.func.value, ast.Name) and a.func.value.id == s and b.func.value.id == o and a.func.attr == b.func.attr and not a.args and not b.args:
+                    w2, n2 = _method_reads(p, c, a.func.attr)
+                    whole |= w2
+                    narrowed |= n2
                 xs = [x for x in ast.walk(a) if isinstance(x, ast.Attribute) and isinstance(x.value, ast.Name) and x.value.id == s]
                 ys = [y for y in ast.walk(b) if isinstance(y, ast.Attribute) and isinstance(y.value, ast.Name) and y.value.id == o]
                 for x in xs:
                     for y in ys:
                         if x.attr == y.attr:
                             px = getattr(x, "_parent", None)
+                            if isinstance(px, ast.Call) and px.func is x:
+                                continue  # a method call, handled above
                             if isinstance(px, ast.Attribute) and px.value is x:
                                 narrowed.add(x.attr)
                             else:
@@ -75,7 +162,7 @@ def r1(p, rep, only=None):
         if only is not None and c.name not in only:
             continue
         fields = class_fields(p, c)
-        res = eq_compared(c)
+        res = eq_compared(p, c)
         if res is None:
             rep.violation("C06.R1", f"{c.qualname}:__eq__", c.loc, "class is part of the compilation cache key / graph equality but defines no __eq__")
             continue
@@ -84,9 +171,10 @@ def r1(p, rep, only=None):
             if fld.startswith("_"):
                 continue
             key = f"{c.qualname}:eq:{fld}"
-            site = f"{c.module.rel}:{c.methods['__eq__'].node.lineno}"
+            eqm = eq_method(p, c)
+            site = f"{eqm.module.rel}:{eqm.node.lineno}"
             if fld == "output" and c.name not in ("Graph",) and fields[fld].name == "Application":
-                if (c.name, fld) in EQ_EXEMPT and "output" in norm(c.methods["__eq__"].node):
+                if (c.name, fld) in EQ_EXEMPT and "output" in norm(eqm.node):
                     rep.exempt("C06.R1", key, site, EQ_EXEMPT[(c.name, fld)])
                 else:
                     rep.ok("C06.R1", key, site, "output tracer is determined by the node's own fields (built in Application.__init__)", nontrivial=False)
@@ -97,14 +185,21 @@ def r1(p, rep, only=None):
             if fld in whole:
                 rep.ok("C06.R1", key, site, f"self.{fld} == other.{fld}")
             elif fld in narrowed:
-                rep.violation("C06.R1", key, site, f"__eq__ compares only a part of `{fld}` (self.{fld}.<attr>): two keys that differ in the rest of `{fld}` collide in the compilation cache, so a call re-uses code compiled for a different argument kind")
+                got = NARROWED_ATTRS.get((c.qualname, fld), set())
+                built = namespace_attrs_of_field(p, c, fld)
+                if built is not None and built <= got:
+                    rep.ok("C06.R1", key, site, f"compares the attributes {sorted(got)} of `{fld}`, which are all it is ever constructed with ({sorted(built)})")
+                else:
+                    miss = f" (constructed with {sorted(built)}, compared {sorted(got)}: {sorted(built - got)} is ignored)" if built is not None else ""
+                    rep.violation("C06.R1", key, site, f"__eq__ compares only a part of `{fld}` (self.{fld}.<attr>){miss}: two keys that differ in the rest of `{fld}` collide in the compilation cache, so a call re-uses code compiled for a different argument kind")
             else:
                 rep.violation("C06.R1", key, site, f"field `{fld}` (set in {fields[fld].name}.__init__) is not compared in {c.name}.__eq__: cache entries / graphs that differ only in `{fld}` are treated as the same")
         # __hash__ may only use fields that __eq__ uses (hash consistency)
-        h = c.methods.get("__hash__")
+        h = next((k.methods["__hash__"] for k in p.mro(c) if hasattr(k, "methods") and "__hash__" in k.methods), None)
         if h is not None:
             s = h.node.args.args[0].arg
-            used = {x.attr for x in ast.walk(h.node) if isinstance(x, ast.Attribute) and isinstance(x.value, ast.Name) and x.value.id == s and x.attr in fields}
+            hw, hn = _method_reads(p, c, "__hash__")
+            used = {a for a in (hw | hn) if a in fields}
             guard_only = {x.attr for t in ast.walk(h.node) if isinstance(t, ast.If) for x in ast.walk(t.test) if isinstance(x, ast.Attribute)}
             extra = used - whole - narrowed - guard_only
             rep.add("C06.R1", f"{c.qualname}:hash-consistent", f"{c.module.rel}:{h.node.lineno}", not extra, f"__hash__ uses {sorted(used)}" + (f"; {sorted(extra)} not compared by __eq__ (equal keys with different hashes miss the cache / unequal ones collide)" if extra else ""))
@@ -471,6 +566,37 @@ def r8(p, rep):
                 rep.ok("C06.R8", key, site, "memoised function does not construct project objects (or cannot be resolved)", nontrivial=g is not None)
 
 
+def r9(p, rep):
+    rep.rule("C06.R9", "what goes into a cache key keeps the values of a dictionary, not only its keys", "lint over the key-building functions (`tuple(d)` / `sorted(d)` / `list(d)` / `set(d)` under `isinstance(d, dict)`)", floor=1)
+    # the key-building functions: __eq__/__hash__/_key-style methods of the tensor placeholder classes, the functions
+    # they call in their module, and the freezing helper of the cache
+    roots = []
+    for nm in ("Tensor", "ConvertibleTensor"):
+        c = p.cls(nm, "signature.classical.tensor")
+        for k in p.mro(c):
+            if hasattr(k, "methods") and k.module is c.module:
+                roots += [m for name, m in k.methods.items() if name in ("__eq__", "__hash__") or name.startswith("_key") or name == "_key"]
+    roots.append(p.func("_freeze_value", "util.lru_cache"))
+    funcs = []
+    for f in roots:
+        for g in common.with_helpers(p, f):
+            if g not in funcs:
+                funcs.append(g)
+    n = 0
+    for g in funcs:
+        if not isinstance(g.node, (ast.FunctionDef, ast.AsyncFunctionDef)):
+            continue
+        cfg = common.cfg_of(g)
+        for c in walk_no_nested(g.node):
+            if isinstance(c, ast.Call) and isinstance(c.func, ast.Name) and c.func.id in ("tuple", "list", "sorted", "set", "frozenset") and len(c.args) == 1 and isinstance(c.args[0], ast.Name):
+                x = c.args[0].id
+                is_dict = any(pol and isinstance(t, ast.Call) and isinstance(t.func, ast.Name) and t.func.id == "isinstance" and len(t.args) == 2 and norm(t.args[0]) == x and norm(t.args[1]) in ("dict", "(dict,)") for t, pol in cfg.guards_of_ast(c))
+                if is_dict:
+                    n += 1
+                    rep.violation("C06.R9", f"{g.qualname}:{norm(c)}", f"{g.module.rel}:{c.lineno}", f"`{norm(c)}` under `isinstance({x}, dict)` keeps only the keys of the dictionary: two arguments that differ in the values (e.g. the kinds of a factory's parameters) get the same cache key")
+    rep.ok("C06.R9", "sweep", "einx/_src", f"{len(funcs)} key-building functions inspected, {n} key-only reductions of a dict")
+
+
 def run(p, rep, tier):
     rep.rule("C06.R1", "cache-key classes compare and hash everything they hold", "T-SIB (__init__ vs __eq__ vs __hash__)", floor=30)
     r1(p, rep)
@@ -484,6 +610,7 @@ def run(p, rep, tier):
     r6(p, rep)
     r7(p, rep)
     r8(p, rep)
+    r9(p, rep)
     from . import c11
 
     c11.r3(p, rep)  # a name table that is rebound when a lazily registered factory runs makes lookups depend on history
